@@ -400,6 +400,41 @@ func c12Seams(a *acc) {
 			a.fail("C12|over-when|results-differ", fmt.Sprintf("WHEN %s: %s %s ; parenthesised: %s %s", p, js(r1), e1, js(r2), e2), map[string]any{"when": p}, js(r2), js(r1))
 		}
 	}
+	// several WHEN predicates in ONE query that differ only in letter case, blanks or one character: each analytic
+	// column must decide as the same predicate does when it is the only WHEN of a query
+	whens := []string{"s = 'X'", "s = 'x'", "s != 'x'", "S = 'x'", "s = 'x '", "s  =  'x'", "s >= 'x'"}
+	wrows := []Row{{"k": "a", "v": 1, "s": "x", "S": "y"}, {"k": "a", "v": 1, "s": "X", "S": "x"}, {"k": "a", "v": 1, "s": "x ", "S": "x"}, {"k": "a", "v": 1, "s": "y", "S": "X"}, {"k": "a", "v": 1, "s": "x", "S": "x"}}
+	for rot := 0; rot < len(whens); rot++ {
+		var cols []string
+		for i := range whens {
+			cols = append(cols, fmt.Sprintf("acc_count(v) OVER (PARTITION BY k WHEN %s) AS c%d", whens[(i+rot)%len(whens)], i))
+		}
+		multi, em, _, _ := syncEval("SELECT "+strings.Join(cols, ", ")+" FROM stream", wrows)
+		for i := range whens {
+			w := whens[(i+rot)%len(whens)]
+			single, es, _, _ := syncEval("SELECT acc_count(v) OVER (PARTITION BY k WHEN "+w+") AS t FROM stream", wrows)
+			a.r.Evaluations += int64(len(wrows))
+			a.r.States += int64(len(wrows))
+			a.r.Nontrivial += int64(len(wrows))
+			if em != "" || es != "" {
+				a.fail("C12|over-when|several-in-one-query|exec", em+" "+es, map[string]any{"when": w}, nil, nil)
+				continue
+			}
+			for ri := range wrows {
+				var got, want any
+				if multi[ri].Row != nil {
+					got = multi[ri].Row[fmt.Sprintf("c%d", i)]
+				}
+				if single[ri].Row != nil {
+					want = single[ri].Row["t"]
+				}
+				if js(got) != js(want) {
+					a.fail("C12|over-when|several-in-one-query|decision-differs", fmt.Sprintf("WHEN %s next to %d other WHEN predicates: counter after row %d is %v, alone in a query it is %v", w, len(whens)-1, ri+1, got, want), map[string]any{"when": w, "all": whens, "rotation": rot}, want, got)
+					break
+				}
+			}
+		}
+	}
 	a.sample(map[string]any{"having": cases[0].plain, "vs": cases[0].paren})
 }
 
